@@ -1280,12 +1280,49 @@ def _round(sk, n, x, *a):
     return round(x, *a)
 
 
+def _sorted(sk, n, x, **k):
+    unknown = set(k) - {'key', 'reverse'}
+    if unknown:
+        raise Unsupported('sorted() with keyword %s' % sorted(unknown)[0])
+    vals = list(sk.iterate(x, n))
+    key = k.get('key')
+    keys = [sk.apply(key, [v], {}, n) for v in vals] if key is not None else vals
+    if any(isinstance(v, Tok) for v in keys) and not all(isinstance(v, Ord) for v in keys):
+        raise Unsupported('sorted() of abstract floats')
+    if keys and all(isinstance(v, Ord) for v in keys):
+        keys = [v.rank for v in keys]           # order tokens sort by rank
+    order = sorted(range(len(vals)), key=lambda i: keys[i], reverse=bool(k.get('reverse', False)))
+    return [vals[i] for i in order]
+
+
 def _minmax(f):
     def g(sk, n, *a, **k):
-        vals = a[0] if len(a) == 1 else a
-        if any(isinstance(v, Tok) for v in vals):
+        unknown = set(k) - {'key', 'default'}
+        if unknown:
+            raise Unsupported('%s() with keyword %s' % (f.__name__, sorted(unknown)[0]))
+        vals = list(sk.iterate(a[0], n)) if len(a) == 1 else list(a)
+        if not vals:
+            if 'default' in k:
+                return k['default']
+            raise Raised('ValueError', '%s() arg is an empty sequence' % f.__name__, n)
+        key = k.get('key')
+        keys = [sk.apply(key, [v], {}, n) for v in vals] if key is not None else vals
+        if any(isinstance(v, Tok) for v in keys):
+            if key is not None:
+                # the first extremal element under the key, decided by the order abstraction where it can be
+                op = ast.Gt() if f is max else ast.Lt()
+                best = 0
+                for i in range(1, len(vals)):
+                    dec = order_compare(keys[i], keys[best], op)
+                    if dec is None:
+                        raise Unsupported('%s(..., key=...) over abstract floats that are not ordered' % f.__name__)
+                    if dec:
+                        best = i
+                return vals[best]
             return DEF()
-        return f(*a)
+        if key is not None:
+            return vals[f(range(len(vals)), key=lambda i: keys[i])]
+        return f(vals)
     return g
 
 
@@ -1301,7 +1338,7 @@ BUILTINS = {
     'getattr': Py(lambda sk, n, ob, k, *d: ob._a[k] if k in ob._a else (d[0] if d else (_ for _ in ()).throw(Violation('SK2', 'getattr: no attribute %s' % k, n))), 'getattr'),
     'hasattr': Py(lambda sk, n, ob, k: isinstance(ob, Bag) and k in ob._a, 'hasattr'),
     'dict': Py(lambda sk, n, *a, **k: dict(*a, **k), 'dict'), 'deepcopy': Py(_deepcopy_tracked, 'deepcopy'),
-    'sum': Py(_sum, 'sum'), 'reversed': Py(lambda sk, n, x: list(reversed(x)), 'reversed'), 'sorted': Py(lambda sk, n, x: sorted(x), 'sorted'),
+    'sum': Py(_sum, 'sum'), 'reversed': Py(lambda sk, n, x: list(reversed(x)), 'reversed'), 'sorted': Py(lambda sk, n, x, **k: _sorted(sk, n, x, **k), 'sorted'),
     'reduce': Py(lambda sk, n, f, seq, *init: _reduce(sk, n, f, seq, *init), 'reduce'),
     'partial': Py(lambda sk, n, f, *a, **k: Py(lambda sk2, n2, *a2, _f=f, _a=a, _k=k, **k2: sk2.apply(_f, list(_a) + list(a2), dict(_k, **k2), n2), 'partial'), 'partial'),
     'set': Py(lambda sk, n, *a: set(*a), 'set'), 'str': Py(lambda sk, n, *a: _str(sk, n, *a), 'str'), 'print': Py(lambda sk, n, *a, **k: None, 'print'),
